@@ -126,6 +126,7 @@ package aggsender
 
 //@ func (a *AggSender) sendCertificate
 //@   props C02 C13
+//@   calledonlyby sendCertificates
 //@   requires a != nil && a.storage != nil && a.log != nil && a.flow != nil && a.aggLayerClient != nil && a.epochNotifier != nil && a.rateLimiter != nil
 //@   modifies lastParams, lastBuilt, sentCount, lastSentCert, lastSentID, savedCount, lastSaved
 //@   ensures[at-most-one-submission] sentCount == old(sentCount) || sentCount == old(sentCount) + 1
@@ -158,4 +159,4 @@ package aggsender
 //@   modifies heap
 //@   loop 0 invariant a.storage != nil && a.log != nil && a.flow != nil && a.aggLayerClient != nil && a.epochNotifier != nil && a.rateLimiter != nil && a.certStatusChecker != nil && a.status != nil
 //@   assert call:sendCertificate:0 !pendingAtLastCheck && newInErrorAtLastCheck && a.cfg.RetryCertAfterInError
-//@   assert call:sendCertificate:1 !pendingAtLastCheck
+//@   assert call:sendCertificate !pendingAtLastCheck
